@@ -294,8 +294,15 @@ def oracle_seq(ev, impl_lines):
                 expect[a] = 1 if sq == 255 else sq + 1
     return viol
 
-def run_flow_check(ck, prop_file, domain, make_cases, corr_name, known_classifier=None):
-    cdir, proofs_ok = vlib.proof_phase(ck, prop_file)
+def run_flow_check(ck, prop_file, domain, make_cases, corr_name, known_classifier=None, lock_fact=None):
+    cdir, proofs_ok = vlib.proof_phase(ck, prop_file, translators=("tables", "lockcfg") if lock_fact else ("tables",))
+    if lock_fact:
+        okl, logl = vlib.coq_make(cdir, ["LockProofs.vo"])
+        diag, side = vlib.lock_diagnosis(cdir, kinds=("guard", "balance"), threadsafe_only=True)
+        rel = [d for d in diag if any(g in d["what"] for g in lock_fact)]
+        ck.oblige("lock fact: %s" % ", ".join(lock_fact), okl and not rel, "; ".join(d["what"] for d in rel[:3]))
+        if not okl or rel:
+            ck.broken.append({"kind": "lock-fact", "name": ",".join(lock_fact), "detail": rel[:5] or logl[-800:]})
     info = load_response_info(cdir)
     exe = vlib.build_harness()
     md = vlib.build_model_driver(cdir)
